@@ -1,6 +1,7 @@
 package main
 
 import (
+	"context"
 	"encoding/json"
 	"flag"
 	"fmt"
@@ -256,6 +257,7 @@ func cmdCheck(args []string) {
 		fmt.Fprintf(os.Stderr, "timing: load %.1fs generate %.1fs solve %.1fs (%d instances, %d covers)\n", loadS, genS, solveS, len(all), nc)
 	}
 
+	vacConfirmed, vacSuspects := vacuityFindings(all)
 	// aggregate by obligation name
 	byName := map[string]*oblSummary{}
 	var names []string
@@ -266,6 +268,9 @@ func cmdCheck(args []string) {
 		solverMs += o.Millis
 		if o.Expect == "sat" {
 			st := o.Status
+			if strings.Contains(o.Name, "/reach-") {
+				continue // call-site probes are paired by vacuityFindings
+			}
 			if prev, ok := covers[o.Name]; !ok || prev == "unsat" {
 				covers[o.Name] = st
 			}
@@ -407,6 +412,14 @@ func cmdCheck(args []string) {
 			counted++
 			viols = append(viols, violation{&oblSummary{Name: n, Kind: "missing", Status: "missing", Desc: "obligation recorded in the ledger was not generated (function or contract clause disappeared, or the contract no longer applies)"}, "missing"})
 		}
+	}
+	// vacuity: a call whose post-state is unsatisfiable although its pre-state was satisfiable
+	for _, site := range vacConfirmed {
+		counted++
+		viols = append(viols, violation{&oblSummary{Name: site, Kind: "vacuity", Status: "refuted", Desc: "the postcondition assumed for this call contradicts what is known at the call site (the state before it is satisfiable, the state after it is not): everything after the call would be proved vacuously; the contract of the callee or the model of its effects is wrong", Contract: true}, "refuted"})
+	}
+	for _, site := range vacSuspects {
+		fmt.Println("VACUITY-SUSPECT:", site, "(post-state unsatisfiable, pre-state not decided within the probe time)")
 	}
 	var specProblems []string
 	if eng != nil {
@@ -583,6 +596,84 @@ func cmdCheck(args []string) {
 	if len(viols) > 0 {
 		os.Exit(1)
 	}
+}
+
+// vacuityFindings pairs the reach-pre / reach-post probes of each call site: a post-state that is unsatisfiable
+// while the pre-state was satisfiable means the callee's contract (or the model of its effects) contradicts the
+// caller's knowledge -- everything after that call would be proved vacuously.
+func vacuityFindings(all []*Obligation) (confirmed, suspects []string) {
+	type key struct {
+		fn, rest string
+		path     int
+	}
+	pre := map[key]string{}
+	preObl := map[key]*Obligation{}
+	post := map[key]*Obligation{}
+	for _, o := range all {
+		if o.Expect != "sat" {
+			continue
+		}
+		i := strings.Index(o.Name, "/reach-")
+		if i < 0 {
+			continue
+		}
+		rest := o.Name[i+len("/reach-"):]
+		switch {
+		case strings.HasPrefix(rest, "pre:"):
+			pre[key{o.Func, rest[4:], o.PathID}] = o.Status
+			preObl[key{o.Func, rest[4:], o.PathID}] = o
+		case strings.HasPrefix(rest, "post:"):
+			post[key{o.Func, rest[5:], o.PathID}] = o
+		}
+	}
+	seenC, seenS := map[string]bool{}, map[string]bool{}
+	for k, o := range post {
+		if o.Status != "unsat" {
+			continue
+		}
+		site := o.Func + "/consistent:" + k.rest
+		if st := pre[k]; st != "sat" && st != "unsat" && preObl[k] != nil {
+			// decide the pre-state with a real time budget before calling it a suspect
+			pre[k] = reprobe(preObl[k])
+		}
+		switch pre[k] {
+		case "sat":
+			if !seenC[site] {
+				seenC[site] = true
+				confirmed = append(confirmed, site)
+			}
+		case "unsat":
+		default:
+			if !seenS[site] {
+				seenS[site] = true
+				suspects = append(suspects, site)
+			}
+		}
+	}
+	sort.Strings(confirmed)
+	sort.Strings(suspects)
+	return
+}
+
+func reprobe(o *Obligation) string {
+	script := o.Script
+	if script == "" {
+		script = o.Prefix + o.Tail
+	}
+	f, err := os.CreateTemp("", "govc-reprobe-*.smt2")
+	if err != nil {
+		return "unknown"
+	}
+	defer os.Remove(f.Name())
+	f.WriteString(script)
+	f.Close()
+	for _, sp := range solvers {
+		r := runSolver(context.Background(), sp, f.Name(), 20000)
+		if r.status == "sat" || r.status == "unsat" {
+			return r.status
+		}
+	}
+	return "unknown"
 }
 
 func dedupe(xs []string) []string {
